@@ -778,3 +778,179 @@ func prunedReach(fn *ssa.Function, consts map[int][]*ssa.Const) map[*ssa.BasicBl
 	walk(fn.Blocks[0])
 	return reach
 }
+
+// ---------- R23c: a registered proposal is unregistered before the connection moves on ----------
+
+var rR23c = RuleRef{Name: "R23c", Doc: "replies stay in request order in cluster mode: in the cluster connection handler every entry put into the proposal rendezvous table (the call of the table method that inserts) is taken out again (a call of a table method that deletes) on every path before the handler writes a reply or comes round to the next command. An entry left behind by a timeout branch is still found by the apply loop when the proposal commits late: its result is parked for -- and sent as the answer to -- the connection's next command", Run: func(c *C) {
+	var hc *ssa.Function
+	for _, h := range c.connHandlers() {
+		if sendsProposal(h) {
+			hc = h
+		}
+	}
+	if hc == nil {
+		c.Undecided("R23c", "the cluster connection handler (the one that sends RaftProposals)")
+		return
+	}
+	// table methods by what they do to the table's map
+	does := func(fn *ssa.Function, what string) bool {
+		if fn == nil || fn.Blocks == nil || fn.Signature.Recv() == nil || !isRendezvousTable(fn.Signature.Recv().Type()) {
+			return false
+		}
+		for _, b := range fn.Blocks {
+			for _, in := range b.Instrs {
+				switch x := in.(type) {
+				case *ssa.MapUpdate:
+					if what == "insert" {
+						return true
+					}
+				case *ssa.Call:
+					if bi, ok := x.Call.Value.(*ssa.Builtin); ok && bi.Name() == "delete" && what == "delete" {
+						return true
+					}
+				}
+			}
+		}
+		return false
+	}
+	n := 0
+	for _, fn := range helperScope(hc, 1) {
+		if pkgRel(fn) != "server" {
+			continue
+		}
+		for _, b := range fn.Blocks {
+			for _, in := range b.Instrs {
+				call, ok := in.(*ssa.Call)
+				if !ok || !does(callee(call), "insert") {
+					continue
+				}
+				n++
+				isDelete := func(x ssa.Instruction) bool {
+					ci, ok := x.(ssa.CallInstruction)
+					return ok && does(callee(ci), "delete")
+				}
+				leak := ""
+				reachesBefore(call, func(x ssa.Instruction) bool {
+					if ci, ok := x.(ssa.CallInstruction); ok {
+						cc := ci.Common()
+						if cc.IsInvoke() && isNetConn(cc.Value.Type()) && cc.Method.Name() == "Write" {
+							leak = "the reply is written at " + c.pos(x.Pos())
+							return true
+						}
+					}
+					if x == ssa.Instruction(call) {
+						leak = "the handler comes round to the next command"
+						return true
+					}
+					if _, isRet := x.(*ssa.Return); isRet {
+						leak = "the handler returns at " + c.pos(x.Pos())
+						return true
+					}
+					return false
+				}, isDelete)
+				c.Add("R23c", fnName(fn), "a registered proposal is unregistered on every path before the next reply", call.Pos(), leak == "", "the entry is still in the table when "+leak)
+			}
+		}
+	}
+	c.Count("R23c_registrations", n)
+	c.Min("R23c_registrations", 1)
+}}
+
+// ---------- R11d: the parser's connection has no read deadline ----------
+
+var rR11d = RuleRef{Name: "R11d", Doc: "a request is decoded the same however its bytes are spread over time: no first-party code arms a read deadline (SetReadDeadline, SetDeadline) on a client connection. The parser reads through bufio and io.ReadFull; a timeout in the middle of a header line or a bulk payload loses the bytes already consumed, and retrying the read continues in the middle of the frame", Run: func(c *C) {
+	n := 0
+	var bad []string
+	for _, fn := range c.P.allFuncs("resp", "server", "memdb") {
+		for _, b := range fn.Blocks {
+			for _, in := range b.Instrs {
+				ci, ok := in.(ssa.CallInstruction)
+				if !ok {
+					continue
+				}
+				cc := ci.Common()
+				name := ""
+				if cc.IsInvoke() {
+					name = cc.Method.Name()
+				} else if cf := cc.StaticCallee(); cf != nil && cf.Signature.Recv() != nil {
+					name = cf.Name()
+				}
+				if name != "SetReadDeadline" && name != "SetDeadline" {
+					continue
+				}
+				// a zero time value disarms
+				if len(cc.Args) > 0 {
+					last := cc.Args[len(cc.Args)-1]
+					if k, isK := last.(*ssa.Const); isK && k.Value == nil {
+						continue
+					}
+				}
+				bad = append(bad, c.pos(in.Pos())+": "+fnName(fn)+" calls "+name)
+			}
+		}
+		n++
+	}
+	c.Add("R11d", "first-party", "no read deadline is armed on client connections", token.NoPos, len(bad) == 0, strings.Join(uniq(bad), "; "))
+	c.Count("R11d_functions_scanned", n)
+	c.Min("R11d_functions_scanned", 50)
+}}
+
+// ---------- R16k: the commit channel is a rendezvous; a snapshot installed into storage is kept whole ----------
+
+var rR16k = RuleRef{Name: "R16k", Doc: "(1) the channel that carries commit batches to the apply loop is unbuffered: handing over batch N means every earlier batch has been executed, which is what lets the Ready loop take a snapshot at the applied index after waiting for the current batch only; with a buffer the snapshot is stamped with an index that covers commands still waiting in the channel. (2) MemoryStorage.ApplySnapshot keeps the snapshot it is given, data included: it is the source of the snapshot a leader sends to a follower behind the compacted log", Run: func(c *C) {
+	n := 0
+	for _, fn := range c.P.allFuncs("raftexample", "server") {
+		for _, b := range fn.Blocks {
+			for _, in := range b.Instrs {
+				mk, ok := in.(*ssa.MakeChan)
+				if !ok {
+					continue
+				}
+				ch, ok := mk.Type().Underlying().(*types.Chan)
+				if !ok || namedOf(ch.Elem()) != "RaftCommit" {
+					continue
+				}
+				n++
+				k, isK := constInt(mk.Size)
+				c.Add("R16k", fnName(fn), "the commit channel has no buffer", mk.Pos(), isK && k == 0, "make(chan *RaftCommit, n) with n > 0: batches queue up behind the apply loop while appliedIndex runs ahead")
+			}
+		}
+	}
+	c.Count("R16k_commit_channels", n)
+	c.Min("R16k_commit_channels", 1)
+	as := c.P.Func(raftPkg, "MemoryStorage.ApplySnapshot")
+	if as == nil {
+		c.Undecided("R16k", "anchor MemoryStorage.ApplySnapshot")
+		return
+	}
+	found := false
+	for _, b := range as.Blocks {
+		for _, in := range b.Instrs {
+			st, ok := in.(*ssa.Store)
+			if !ok {
+				continue
+			}
+			fa, ok := st.Addr.(*ssa.FieldAddr)
+			if !ok || namedOf(fa.X.Type()) != "MemoryStorage" || fieldName(fa) != "snapshot" {
+				continue
+			}
+			found = true
+			whole := false
+			v := st.Val
+			if u, isU := v.(*ssa.UnOp); isU && u.Op == token.MUL {
+				if al, isAl := u.X.(*ssa.Alloc); isAl {
+					if sv := singleStore(al); sv != nil {
+						v = sv
+					}
+				}
+			}
+			if p, isP := v.(*ssa.Parameter); isP && p.Parent() == as {
+				whole = true
+			}
+			c.Add("R16k", fnName(as), "the installed snapshot is stored whole", st.Pos(), whole, "MemoryStorage.snapshot is set to "+canon(st.Val)+", not to the snapshot that was handed in")
+		}
+	}
+	if !found {
+		c.Undecided("R16k", "the store of MemoryStorage.snapshot in ApplySnapshot")
+	}
+}}
